@@ -282,44 +282,72 @@ class DFA:
     def minimize(self) -> "DFA":
         if self._min:
             return self
-        n = len(self.tr)
-        block = [1 if f else 0 for f in self.fin]
-        nblocks = len(set(block))
-        while True:
-            sigs: dict = {}
-            newb = [0] * n
+        n, K, trs = len(self.tr), self.K, self.tr
+        # Hopcroft partition refinement
+        fin_states = [s for s in range(n) if self.fin[s]]
+        non_states = [s for s in range(n) if not self.fin[s]]
+        blocks: list[set] = [set(b) for b in (fin_states, non_states) if b]
+        block_of = [0] * n
+        for i, b in enumerate(blocks):
+            for s in b:
+                block_of[s] = i
+        if len(blocks) > 1:
+            inv: list[dict[int, list[int]]] = [dict() for _ in range(K)]
             for s in range(n):
-                sig = (block[s], tuple(block[t] for t in self.tr[s]))
-                b = sigs.get(sig)
-                if b is None:
-                    b = len(sigs)
-                    sigs[sig] = b
-                newb[s] = b
-            block = newb
-            if len(sigs) == nblocks:
-                break
-            nblocks = len(sigs)
+                row = trs[s]
+                for a in range(K):
+                    inv[a].setdefault(row[a], []).append(s)
+            work = {0 if len(blocks[0]) <= len(blocks[1]) else 1}
+            while work:
+                wi = work.pop()
+                splitter = list(blocks[wi])
+                for a in range(K):
+                    ia = inv[a]
+                    touched: dict[int, list[int]] = {}
+                    for t in splitter:
+                        for s in ia.get(t, ()):
+                            touched.setdefault(block_of[s], []).append(s)
+                    for bi, members in touched.items():
+                        blk = blocks[bi]
+                        if len(members) == len(blk):
+                            continue
+                        ms = set(members)
+                        rest = blk - ms
+                        # keep the larger part in place
+                        if len(ms) <= len(rest):
+                            small, large = ms, rest
+                        else:
+                            small, large = rest, ms
+                        blocks[bi] = large
+                        ni = len(blocks)
+                        blocks.append(small)
+                        for s in small:
+                            block_of[s] = ni
+                        if bi in work:
+                            work.add(ni)
+                        else:
+                            work.add(ni)  # small part
         # quotient + canonical BFS numbering from the start block
-        rep: dict[int, int] = {}
-        for s in range(n):
-            rep.setdefault(block[s], s)
-        order = [block[0]]
-        num = {block[0]: 0}
+        rep = [next(iter(b)) for b in blocks]
+        order = [block_of[0]]
+        num = {block_of[0]: 0}
         i = 0
         tr: list[list[int]] = []
         while i < len(order):
             b = order[i]
             i += 1
             row = []
-            for t in self.tr[rep[b]]:
-                bt = block[t]
-                if bt not in num:
-                    num[bt] = len(order)
+            for t in trs[rep[b]]:
+                bt = block_of[t]
+                j = num.get(bt)
+                if j is None:
+                    j = len(order)
+                    num[bt] = j
                     order.append(bt)
-                row.append(num[bt])
+                row.append(j)
             tr.append(row)
         fin = [self.fin[rep[b]] for b in order]
-        d = DFA(self.K, tr, fin)
+        d = DFA(K, tr, fin)
         d._min = True
         return d
 
@@ -332,7 +360,13 @@ class DFA:
 
     # ------------------------------------------------------------------ queries
     def is_empty(self) -> bool:
+        if self._min:
+            return len(self.tr) == 1 and not self.fin[0]
         return self.shortest() is None
+
+    def is_eps(self) -> bool:
+        d = self.minimize()
+        return len(d.tr) == 2 and d.fin[0] and not d.fin[1]
 
     def shortest(self) -> tuple | None:
         prev: dict[int, tuple | None] = {0: None}
@@ -389,12 +423,20 @@ class DFA:
         return DFA(self.K, tr, fin).minimize()
 
     def __and__(self, o: "DFA") -> "DFA":
+        if self.is_empty() or o.is_empty():
+            return L_empty(self.K)
         return self._product(o, lambda a, b: a and b)
 
     def __or__(self, o: "DFA") -> "DFA":
+        if self.is_empty():
+            return o
+        if o.is_empty():
+            return self
         return self._product(o, lambda a, b: a or b)
 
     def __sub__(self, o: "DFA") -> "DFA":
+        if self.is_empty() or o.is_empty():
+            return self
         return self._product(o, lambda a, b: a and not b)
 
     def complement(self) -> "DFA":
@@ -408,6 +450,12 @@ class DFA:
         return self.key == o.key
 
     def concat(self, o: "DFA") -> "DFA":
+        if self.is_empty() or o.is_empty():
+            return L_empty(self.K)
+        if self.is_eps():
+            return o
+        if o.is_eps():
+            return self
         n = NFA(self.K)
         a = n.embed(self)
         b = n.embed(o)
@@ -490,6 +538,8 @@ class DFA:
 
     # ------------------------------------------------------------------ transductions
     def image(self, t: "FST") -> "DFA":
+        if self.is_empty():
+            return self
         n = NFA(self.K)
         ids: dict = {}
 
